@@ -148,12 +148,16 @@ def processLine (acc : Acc) (line : String) : Acc :=
         let dkv := kvOf deltaToks
         let implPost := let s := applyMod acc.cur dkv; { s with bank := applyLedger acc.cur.bank dkv }
         let mres := step acc.env acc.cur op
+        -- `later=1`: a later message of the same transaction failed (class `rej:later` when this message itself had
+        -- succeeded): the transaction's branch is discarded (`deliver`), nothing changed, whatever the handler did
+        let later := (kvOf args).get "later" == "1"
+        let handlerOk := match mres with | .ok _ => true | .error _ => false
         let (modelOk, modelResp, modelPost, modelRej) :=
           match mres with
-          | .ok (s', r) => (true, r, s', "")
+          | .ok (s', r) => if later then (false, Resp.none, acc.cur, "later") else (true, r, s', "")
           | .error e => (false, Resp.none, acc.cur, rejName e)
         let comps : List String :=
-          (if modelOk != implOk then ["outcome"] else []) ++
+          (if modelOk != implOk || (later && handlerOk != (implClass == "rej:later")) then ["outcome"] else []) ++
           (if modelOk && implOk && !respEq kind modelResp implResp then ["resp"] else []) ++
           (if !bankEq modelPost.bank implPost.bank then ["bank"] else []) ++
           (if modelPost.pools != implPost.pools || modelPost.seq != implPost.seq then ["pools"] else [])
@@ -163,7 +167,7 @@ def processLine (acc : Acc) (line : String) : Acc :=
         -- pool records as seen through the keeper's lookups: unchanged by a rejected message, and always the listed pools
         let viol := viol ++ (if !implOk && pq' != acc.pq then [s!"{seq} V C02 rejected_unchanged_lookups"] else []) ++
           (if !lookupsMatch implPost.pools pq' then [s!"{seq} V C02 pool_lookups_match_listing", s!"{seq} V C18 pool_lookups_match_listing"] else [])
-        let tag := s!"{branchOf acc.cur op}/{if implOk then "ok" else "rej"}/{opMagnitude op}"
+        let tag := s!"{branchOf acc.cur op}/{if implOk then "ok" else "rej"}/{opMagnitude op}{if later then "/later" else ""}"
         let l :=
           if comps.isEmpty then s!"{seq} A {tag}"
           else s!"{seq} D {tag} comps={",".intercalate comps} model={if modelOk then "ok" else "rej:" ++ modelRej} impl={implClass} " ++
